@@ -6,6 +6,7 @@ import (
 	"errors"
 	"fmt"
 	"io"
+	"net"
 	"os"
 	"reflect"
 	"sync"
@@ -606,13 +607,23 @@ func (c *wsConn) setupPings() func() {
 		}
 		return nil
 	})
+	conn := c.conn
 	c.conn.SetPingHandler(func(appData string) error {
 		// treat pings as pongs - this lets us register server activity even if it's too busy to respond to our pings
 		select {
 		case c.pongs <- struct{}{}:
 		default:
 		}
-		return nil
+
+		// still answer the ping, as the default handler would; the peer relies
+		// on pongs to keep its read deadline from expiring
+		err := conn.WriteControl(websocket.PongMessage, []byte(appData), time.Now().Add(time.Second))
+		if err == websocket.ErrCloseSent {
+			return nil
+		} else if e, ok := err.(net.Error); ok && e.Temporary() {
+			return nil
+		}
+		return err
 	})
 
 	stop := make(chan struct{})
